@@ -93,6 +93,9 @@ func (p *exeParser) readOp(opType OpType) (op *Op, err error) {
 	op = &Op{Type: opType, SelBase: SelBase{line: p.line, col: p.col}}
 
 	if _, err = p.skipSpace(); err == nil {
+		// Line and column are taken at the same point, the name can be on
+		// a later line than the operation type.
+		op.line = p.line
 		op.col = p.col
 		op.Name, err = p.readToken()
 	}
